@@ -69,6 +69,14 @@ def consumed_arity(fn, param):
     """How many elements of `param` the function consumes: tuple-unpacking count or max constant index + 1; 'star' for *param;
     'iter' when it is iterated / mapped; None when it is used whole."""
     res = set()
+    # plain copies of the parameter (an inlined helper's own parameter name) count as the parameter
+    copies = {param}
+    for n in ast.walk(fn):
+        if isinstance(n, ast.Assign) and len(n.targets) == 1 and isinstance(n.targets[0], ast.Name) and isinstance(n.value, ast.Name) and n.value.id in copies:
+            copies.add(n.targets[0].id)
+    if len(copies) > 1:
+        for c in sorted(copies - {param}):
+            res |= {x for x in consumed_arity(fn, c)} if c != param else set()
     for n in ast.walk(fn):
         if isinstance(n, ast.Assign) and isinstance(n.value, ast.Name) and n.value.id == param and isinstance(n.targets[0], (ast.Tuple, ast.List)):
             if any(isinstance(t, ast.Starred) for t in n.targets[0].elts):
